@@ -152,7 +152,7 @@ def judge(check: core.Check, progs: list[dict], label: str) -> None:
     batches = [(i, progs[i : i + 150]) for i in range(0, len(progs), 150)]
     parts = core.pmap(observe_batch, batches, chunk=1)
     obs = [o for part in parts for o in part]
-    verdicts, stats = core.adjudicate("ScopesTrace", "ScopesTrace.cfg", obs, batch=300, parallel=12)
+    verdicts, stats = core.adjudicate("ScopesTrace", "ScopesTrace.cfg", obs, batch=120, parallel=14, timeout=1500)
     check.add_trace_stats(stats)
     check.evals(len(obs))
     by_tid = {o["tid"]: o for o in obs}
